@@ -56,6 +56,37 @@ def path_worlds():
     return worlds
 
 
+def order_worlds():
+    """the location does not depend on what the Config was used for before: `path` queries before and after
+    calls of every entry point through the SAME Config (the standalone JSON variant defaults the extension to
+    .json for its own call only)"""
+    from gen import cfg_line
+    worlds = []
+    calls = [('sajson', 's %s' % hx('{"a":1}')), ('json', 's %s' % hx('{"a":1}')), ('yaml', 's %s' % hx('a: 1\n')), ('snap', hx('v')), ('sasnap', hx('v'))]
+    n = 0
+    for fn, ext in ((None, None), ('named', None), (None, '.txt')):
+        for first in calls:
+            n += 1
+            w = World('order-%d' % n)
+            w.add('mode 0 -')
+            w.add(cfg_line(1, 'snaps', fn, ext))
+            q = [w.add('path 1 %d %s' % (sa, hx('TestOrder'))) for sa in (0, 1)]
+            w.add('begin 1 %s' % hx(b'TestOrder'))
+            w.add('%s 1 1 %s' % first)
+            for kind, arg in calls:
+                w.add('%s 1 1 %s' % (kind, arg))
+            w.add('end 1')
+            for sa in (0, 1):
+                def exp(line, raw, ww, before=q[sa]):
+                    if raw != ww.impl[before]:
+                        return 'the location changed after other calls through the same Config: %r, before %r' % (
+                            unhx(raw.split()[1]).decode('utf-8', 'replace'), unhx(ww.impl[before].split()[1]).decode('utf-8', 'replace'))
+                    return None
+                w.add('path 1 %d %s' % (sa, hx('TestOrder')), ('location-independent-of-earlier-calls', exp))
+            worlds.append(w)
+    return worlds
+
+
 # ---------------------------------------------------------------- program runs
 
 GOMOD = '''module example.com/prog
@@ -72,10 +103,11 @@ def gen_program(r, idx):
     """a small module; returns (files, expected locations relative to module root, description)"""
     pkgdir = r.choice(['', 'sub', 'sub/pkg/deep'])
     pkgname = 'prog' if not pkgdir else pkgdir.split('/')[-1]
-    shapes = sorted(set(['direct', 'helper-nontest', 'closure', 'goroutine', 'subtest', 'deep-helpers', 'standalone', 'config', 'suite-nontest', 'deep-recursion', 'dotted-names', 'punct-names', 'shared-helper', 'shared-helper']))
+    shapes = sorted(set(['direct', 'helper-nontest', 'closure', 'goroutine', 'subtest', 'deep-helpers', 'standalone', 'config', 'suite-nontest', 'deep-recursion', 'dotted-names', 'punct-names', 'shared-helper', 'shared-helper', 'dotted-files']))
     # every shape at least once per run, then random ones
     shape = shapes[idx] if idx < len(shapes) else r.choice(shapes)
-    tf = 'x%d_test.go' % idx
+    # (test file names with further dots: `orders.v2_test.go`, `api.pb_test.go` - only `.go` is an extension)
+    tf = r.choice(['x%d_test.go', 'x%d_test.go', 'x%d.v2_test.go', 'api.pb.x%d_test.go']) % idx
     files = {'go.mod': GOMOD}
     imports = ['"testing"', '"github.com/gkampitakis/go-snaps/snaps"']
     body = ''
@@ -127,6 +159,14 @@ def gen_program(r, idx):
         exp.append(posixpath.join(base, stem + '.snap'))
         for x in subs:
             exp.append(posixpath.join(base, ('TestShape/' + x.replace(' ', '_')).replace('/', '_') + '_1.snap'))
+    elif shape == 'dotted-files':
+        # two test files of one package whose names differ only AFTER the first dot: each has its own snapshot file
+        tf = 'orders%d.v1_test.go' % idx
+        other = 'orders%d.v2_test.go' % idx
+        stem = tf[:-3]
+        files[posixpath.join(pkgdir, other)] = 'package %s\n\nimport (\n\t"testing"\n\t"github.com/gkampitakis/go-snaps/snaps"\n)\n\nfunc TestV2(t *testing.T) {\n\tsnaps.MatchSnapshot(t, "two")\n}\n' % pkgname
+        body = 'func TestShape(t *testing.T) {\n\tsnaps.MatchSnapshot(t, "one")\n}\n'
+        exp += [posixpath.join(base, stem + '.snap'), posixpath.join(base, other[:-3] + '.snap')]
     elif shape == 'closure':
         body = 'func TestShape(t *testing.T) {\n\tf := func() { func() { snaps.MatchSnapshot(t, "v") }() }\n\tf()\n}\n'
         exp.append(posixpath.join(base, stem + '.snap'))
@@ -204,6 +244,7 @@ EVIDENCE = dict(rule='white-box: all Dir x Filename x Ext x API x name combinati
 
 def run(ctx):
     run_suite(ctx, 'path.formula', path_worlds(), known=None, chunk=100)
+    run_suite(ctx, 'path.order-independent', order_worlds(), known=None)
     g = Gen(ctx.seed * 1000003 + 11)
     nprog = 16 if ctx.tier == 'quick' else 240
     progs = [gen_program(g.r, i) for i in range(nprog)]
